@@ -207,7 +207,7 @@ Section Write.
             assert (Htl : length (tl (s_queue st)) = length (ps_dir_items q)).
             { destruct (s_queue st); cbn [tl length] in *; [discriminate|lia]. }
             rewrite Htl. replace (S (length (s_dirs st))) with (length (s_dirs st) + 1)%nat by lia. reflexivity. }
-          rewrite Hqueue.
+          rewrite Hqueue. unfold Fd1.
           rewrite (IH items1 st1 Hq1 Hs1 Hn1 F) by (cbn [map length] in HF; lia).
           cbn [map]. f_equal. f_equal. unfold ms_chunk. rewrite Hrecs. unfold ms_dlen_at. rewrite Hpn. reflexivity.
   Qed.
@@ -228,7 +228,7 @@ Proof.
   - reflexivity.
   - cbn [ps_dq map fst snd]. rewrite ps_wsize_cons. unfold ps_wsize. cbn. lia.
   - intros p n [Hin|[]]. injection Hin as <- <-. reflexivity.
-  - rewrite (ps_gwalk_ndirs dt t (tsize (ms_dtree t)) [([], t)] (ps_init (root_extent t) (root_len t))).
+  - rewrite (ps_gwalk_ndirs dt Hdt t (tsize (ms_dtree t)) [([], t)] (ps_init (root_extent t) (root_len t))).
     + cbn [ps_init s_dirs length Nat.add ps_dq map fst snd]. apply le_n.
     + cbn [ps_dq map fst snd]. rewrite ps_wsize_cons. unfold ps_wsize. cbn. lia.
     + intros p n [Hin|[]]. injection Hin as <- <-. reflexivity.
